@@ -319,7 +319,7 @@ class Gen:
         self.rng = random.Random(seed)
         self.o = dict(alphabet=[0x61, 0x62, 0x63], p_ctx=0.2, p_eoi=0.12, p_builtin=0.06, p_any=0.08,
                       p_diff=0.06, p_var=0.15, max_depth=3, p_named=0.6, max_rulesets=3, max_rules=5,
-                      p_fallible=0.3, wide=False, kinds=None, p_alt=0.15, p_wide_char=0.0)
+                      p_fallible=0.3, wide=False, kinds=None, p_alt=0.15, p_wide_char=0.0, p_frag=0.5, p_template=0.2)
         self.o.update(opts)
         self.stats = {}
 
@@ -405,10 +405,47 @@ class Gen:
                 items.append((a, a + r.choice([0, 1, 2, 4])))
         return ('set', items)
 
+    def new_fragments(self):
+        r = self.rng
+        fr = []
+        for _ in range(r.randint(2, 4)):
+            x = r.random()
+            if x < 0.5:
+                fr.append(('char', self.char()))
+            elif x < 0.7:
+                fr.append(('str', [self.char() for _ in range(r.randint(1, 2))]))
+            elif x < 0.9:
+                fr.append(self.set_())
+            else:
+                fr.append(('any',))
+        self.frags = fr
+
+    def frag_regex(self):
+        r = self.rng
+        F = lambda: r.choice(self.frags)
+        x = r.random()
+        if x < 0.2:
+            return F()
+        if x < 0.4:
+            return ('cat', F(), F())
+        if x < 0.6:
+            return ('cat', ('or', F(), F()), F())
+        if x < 0.75:
+            return ('cat', ('or', F(), F()), ('cat', F(), F()))
+        if x < 0.85:
+            return ('cat', ('plus', F()), F())
+        if x < 0.93:
+            return ('cat', ('opt', F()), ('cat', F(), F()))
+        return ('cat', F(), ('star', ('or', F(), F())))
+
     def rule_regex(self, vars_, env):
         r = self.rng
         for _ in range(20):
-            re = self.regex(r.randint(0, self.o['max_depth']), vars_)
+            if getattr(self, 'frags', None) and r.random() < 0.75:
+                re = self.frag_regex()
+                self.bump('frag_rule')
+            else:
+                re = self.regex(r.randint(0, self.o['max_depth']), vars_)
             if has_eoi(re, env):
                 continue
             if nullable(re, env):
@@ -478,6 +515,10 @@ class Gen:
     def definition(self):
         r = self.rng
         o = self.o
+        self.frags = None
+        if r.random() < o['p_frag']:
+            self.new_fragments()
+            self.bump('frag_defs')
         named = r.random() < o['p_named']
         fallible = r.random() < o['p_fallible']
         d = []
@@ -529,6 +570,69 @@ class Gen:
             self.bump('ctx')
         return {'re': re, 'ctx': ctx, 'kind': self.kind(named, nrs, fallible)}
 
+    # ---- structured shapes named in the properties' quantifiers: automata with a join that is reachable
+    #      both with and without an earlier accepting position, in any rule set, with switches
+    def template_definition(self):
+        r = self.rng
+        letters = r.sample([0x61, 0x62, 0x63, 0x64, 0x65, 0x66], 5)
+        a, b, c, dd, sw = letters
+        nrs = r.randint(1, 3)
+        names = ['Init'] + ["R%d" % i for i in range(1, nrs)]
+        fallible = r.random() < 0.3
+        d = [('errtype',)] if fallible else []
+        self.tmpl_alpha = letters + [0x3f]
+        tok = lambda: 'simple:%d' % r.randint(0, 99)
+
+        def kind(sw_ok=True):
+            x = r.random()
+            if x < 0.5:
+                return tok()
+            if x < 0.6:
+                return 'skip'
+            if x < 0.75:
+                return 'inf:ret.%d' % r.randint(0, 99)
+            if x < 0.85:
+                return 'inf:cont'
+            if x < 0.9:
+                return 'inf:rcont'
+            if fallible and x < 0.95:
+                return r.choice(['fal:ret.%d' % r.randint(0, 99), 'fal:err.%d' % r.randint(0, 99)])
+            return 'inf:rret.%d' % r.randint(0, 99)
+        for k, nm in enumerate(names):
+            short = r.choice([('char', a), ('plus', ('char', a)), ('cat', ('char', a), ('opt', ('char', a)))])
+            join_head = ('or', ('char', a), ('char', b)) if r.random() < 0.7 else ('set', [a, b])
+            mid = r.choice([('char', c), ('plus', ('char', c)), ('str', [c, c])])
+            long_ = ('cat', join_head, ('cat', mid, ('char', dd)))
+            rules = [{'re': short, 'ctx': (('char', r.choice([c, dd, b])) if r.random() < 0.25 else None), 'kind': kind()},
+                     {'re': long_, 'ctx': None, 'kind': kind()}]
+            if r.random() < 0.6:
+                rules.append({'re': ('cat', ('char', a), ('char', b)), 'ctx': None, 'kind': kind()})
+            if r.random() < 0.6:
+                rules.append({'re': ('char', r.choice([c, dd])), 'ctx': None, 'kind': kind()})
+            if r.random() < 0.2:
+                rules.append({'re': ('eoi',), 'ctx': None, 'kind': tok()})
+            if nrs > 1:
+                tgt = r.choice([j for j in range(nrs) if j != k])
+                rules.append({'re': ('char', sw), 'ctx': None,
+                              'kind': r.choice(['inf:sw.%d' % tgt, 'inf:swret.%d.%d' % (tgt, r.randint(0, 99)),
+                                                'inf:rsw.%d' % tgt, 'alt:0:sw.%d:cont' % tgt])})
+            r.shuffle(rules)
+            d.append(('ruleset', nm, [('rule', x) for x in rules]))
+        self.bump('template_defs')
+        return d
+
+    def template_inputs(self, n, ctors=(0,)):
+        r = self.rng
+        out = [(ctors[0], [])]
+        seen = {()}
+        while len(out) < n:
+            s = tuple(r.choice(self.tmpl_alpha) for _ in range(r.randint(2, 11)))
+            if s in seen:
+                continue
+            seen.add(s)
+            out.append((r.choice(ctors), list(s)))
+        return out
+
     # ---- inputs
     def inputs(self, d, n, max_len=12, ctors=(0,)):
         r = self.rng
@@ -557,11 +661,40 @@ class Gen:
         out = [(ctors[0], [])]
         seen = {()}
         tries = 0
+        rsets = [[it[1] for it in top[2] if it[0] == 'rule'] for top in d if top[0] == 'ruleset']
+        if not rsets:
+            rsets = [rules]
         while len(out) < n and tries < n * 10:
             tries += 1
             mode = r.random()
             s = []
-            if mode < 0.55 and rules:
+            if mode < 0.45 and rules:
+                # walk through the rule sets the way the lexer would: words of rules of the active rule set,
+                # following switches; sometimes a word is cut short and followed by a foreign character
+                # (failure: back to Init), then lexing goes on
+                cur = 0
+                for _ in range(r.randint(2, 6)):
+                    rs = rsets[cur] if cur < len(rsets) and rsets[cur] else rsets[0]
+                    if not rs:
+                        s.append(r.choice(alpha))
+                        cur = 0
+                        continue
+                    rule = r.choice(rs)
+                    w = [c for c in sample_word(rule['re'], r, env) if c is not None]
+                    if rule['ctx'] and r.random() < 0.7:
+                        w += [c for c in sample_word(rule['ctx'], r, env) if c is not None]
+                    x = r.random()
+                    if x < 0.25 and len(w) >= 1:
+                        cut = r.randrange(0, len(w) + 1)
+                        s += w[:cut] + [r.choice(others + alpha)]
+                        cur = 0
+                        continue
+                    s += w
+                    k = rule['kind']
+                    m = __import__('re').findall(r"sw(?:ret)?\.(\d+)", k)
+                    if m and (not k.startswith('alt') or r.random() < 0.5):
+                        cur = int(m[0])
+            elif mode < 0.65 and rules:
                 # concatenation of sampled words, possibly cut or perturbed
                 for _ in range(r.randint(1, 4)):
                     rule = r.choice(rules)
